@@ -429,6 +429,14 @@ class Kit:
                         # waits for something that nobody else refers to (a reply that
                         # never comes): only the task itself keeps the future alive
                         await asyncio.get_running_loop().create_future()
+                    elif op == "wait-weak":
+                        # waits for a reply; whoever sends it only knows the future weakly
+                        import weakref
+
+                        future = asyncio.get_running_loop().create_future()
+                        kit.env.shared.setdefault(step[1], weakref.WeakSet()).add(future)
+                        await future
+                        del future
                     elif op == "forever":
                         while True:
                             await asyncio.sleep(step[1])
